@@ -88,19 +88,7 @@ Theorem C04_gc_then_hib : forall (p : list action) (d : Z), pre_ok p ->
   exists p', collect_garbage p = Some p' /\
     lifecycle_ok (insert_hb p' d) /\ nothing_hibernated (run init (insert_hb p' d)) /\
     erase_deletes (erase_hb (insert_hb p' d)) = p.
-Proof.
-  intros p d H. destruct (gc_sound p H) as [p' [E [L R]]]. exists p'. split; [exact E|].
-  assert (F : Forall hb_kind p').
-  { apply Forall_forall. intros a Ha.
-    assert (K : In a p \/ kind a = KDelete).
-    { destruct (is_kind KDelete a) eqn:Kd.
-      - right. apply kind_eqb_eq. exact Kd.
-      - left. rewrite <- R. apply filter_In. split; [exact Ha|]. rewrite Kd. reflexivity. }
-    destruct K as [K|K].
-    - destruct H as [_ G]. rewrite Forall_forall in G. destruct (G a K) as [[Gk|[Gk|[Gk|Gk]]] _]; split; rewrite Gk; discriminate.
-    - split; rewrite K; discriminate. }
-  destruct (hib_sound p' d L F) as [L' [N' E']]. split; [exact L'|]. split; [exact N'|]. rewrite E'. exact R.
-Qed.
+Proof. exact gc_then_hib. Qed.
 Print Assumptions C04_gc_then_hib.
 
 Definition diamond_gc : list action :=
@@ -129,10 +117,5 @@ Theorem C04_lifecycle_plain : forall p : list action, lifecycle_ok p ->
   (forall p1 a p2 b, p = p1 ++ a :: p2 -> kind a = KDelete -> items a = [b] -> Forall (fun a' => ~ In b (items a')) p2) /\
   (* a branch that is never created is never mentioned; applied to a prefix: every mention comes after the creation *)
   (forall b, Forall (fun a => ~ In b (creates a)) p -> Forall (fun a => ~ In b (items a)) p).
-Proof.
-  intros p L. split; [|split].
-  - intros p1 a p2 b E Hb. exact (created_once p p1 a p2 b L E Hb).
-  - intros p1 a p2 b E K I. exact (no_mention_after_delete p p1 a p2 b L E K I).
-  - exact (created_before_mentioned p L).
-Qed.
+Proof. exact lifecycle_plain. Qed.
 Print Assumptions C04_lifecycle_plain.
